@@ -24,4 +24,13 @@ if [ "$ID" = "C22" ]; then
     exit 2
   fi
 fi
-exec /verif/target/verif/nbv check "$ID" --tier "$TIER"
+# memory guard (a runaway generated program must not take the machine down) and wall-clock guard;
+# both are infrastructure trouble (exit 2), never a violation
+ulimit -v 41943040 2>/dev/null
+LIMIT=1800; [ "$TIER" = "thorough" ] && LIMIT=28800
+timeout --signal=KILL "$LIMIT" /verif/target/verif/nbv check "$ID" --tier "$TIER"
+rc=$?
+case $rc in
+  0|1) exit $rc ;;
+  *) echo "INFRA: check process ended with status $rc (crash, memory guard or time limit)" >&2; exit 2 ;;
+esac
